@@ -10,8 +10,21 @@ from . import core
 from engine.par import pmap
 
 
+SPEC_NAMES = ('cnt1', 'pos1', 'neg1', 'sum1', 'sumF1', 'sumFp1', 'sumFn1', 'dot1', 'ccnt', 'cpos', 'cneg', 'csum', 'totF', 'totFp', 'totFn', 'dot2',
+              'isperm', 'ixperm', 'F')
+
+
 def to_smt2(premises, goal, axioms):
     s = z3.Solver()
+    if axioms:
+        # the spec-function axioms are only needed by obligations that mention a spec function
+        t = z3.Solver()
+        for p in premises:
+            t.add(p)
+        t.add(z3.Not(goal))
+        txt = t.to_smt2()
+        if not any(('(declare-fun %s ' % nm) in txt for nm in SPEC_NAMES):
+            axioms = []
     for a in axioms:
         s.add(a)
     for p in premises:
